@@ -19,7 +19,8 @@ class AnchorMissing(Exception):
 
 
 class Ctx:
-    def __init__(self, prop, tier, prog, config="default"):
+    def __init__(self, prop, tier, prog, config="default", repo=None):
+        self.repo = repo or F.REPO
         self.prop = prop
         self.tier = tier
         self.prog = prog
@@ -153,6 +154,15 @@ def run_property(prop, tier, seed, out=sys.stdout):
         out.write("  violated: [%s] %s\n      at %s in %s\n      %s\n" % (o["rule"], o["key"], o["where"], o["fn"], o["detail"]))
         out.write("VIOLATION property=%s replay=%s\n" % (prop, p))
 
+    # checker self-test (thorough tier)
+    st = None
+    if tier == "thorough":
+        from . import selftest
+        ok_keys = {(k[1], k[2]) for k in open_k if k[0] == prop}
+        st = selftest.run(prop, out, lambda prog_, repo_: Ctx(prop, tier, prog_, "default", repo=repo_), ok_keys)
+        if st["missed"]:
+            out.write("SELFTEST-MISS property=%s variants=%s (the checker failed to detect its own seeded variants: broken checker)\n" % (prop, ",".join(st["missed"])))
+
     # evidence
     nontrivial = [o for o in obs if not o["key"].startswith(("floor:",))]
     samples = []
@@ -189,6 +199,11 @@ def run_property(prop, tier, seed, out=sys.stdout):
                 "rustc nightly (type checking, MIR construction)", "the fact extractor /verif/driver",
                 "std and third-party crates behave as documented"],
             "notes": notes[:50],
+            "selftest_variants": st["variants"] if st else None,
+            "selftest_detected": st["detected"] if st else None,
+            "selftest_missed": st["missed"] if st else None,
+            "selftest_skipped": st["skipped"] if st else None,
+            "selftest_details": st["details"] if st else None,
             "exhaustive": True,
         },
         "assumptions": meta.get("assumptions", []) + [
@@ -202,7 +217,11 @@ def run_property(prop, tier, seed, out=sys.stdout):
         json.dump(ev, fh, indent=1)
     out.write("%s: %d obligations, %d discharged, %d known finding(s), %d violation(s) in %.1fs\n" % (
         prop, len(obs), ev["coverage"]["discharged"], len(known_hits), len(violations), ev["wall_s"]))
-    return 1 if violations else 0
+    if violations:
+        return 1
+    if st and st["missed"]:
+        return 2
+    return 0
 
 
 def main(argv):
